@@ -801,8 +801,10 @@ fn run_blocking_inner(line: &str) -> String {
     if c.rx == Rx::Gone {
         drop(receiver.take());
     }
-    for i in 0..c.prefill {
-        sender.send(i as u64 + 1);
+    if !c.spawn_inside {
+        for i in 0..c.prefill {
+            sender.send(i as u64 + 1);
+        }
     }
     let sender = Arc::new(sender);
     let timeout = c.timeout;
@@ -823,7 +825,16 @@ fn run_blocking_inner(line: &str) -> String {
             if !matches!(c.ctx, Ctx::Ct | Ctx::Mt) || c.api == Api::Async {
                 return "bad-case".into();
             }
-            *START_INSIDE.lock().unwrap() = Some(Box::new(start));
+            // … spawned into an EMPTY channel, so it is in its idle wait (a timer of whatever drivers it runs on) when
+            // the items arrive 30 ms later and the blocking call starts on the runtime's own thread
+            let (s2, prefill) = (sender.clone(), c.prefill);
+            *START_INSIDE.lock().unwrap() = Some(Box::new(move || {
+                start();
+                std::thread::sleep(Duration::from_millis(30));
+                for i in 0..prefill {
+                    s2.send(i as u64 + 1);
+                }
+            }));
         } else if c.rx == Rx::Live {
             start();
         } else {
